@@ -253,39 +253,6 @@ Src HistSim::pickSrc(size_t opIndex, size_t arg, const std::string& bytes, bool 
 
 namespace {
 
-// recognises the MessagePack bin/ext objects the API can create itself
-bool asBin(const std::string& raw, std::string& payload) {
-  if (raw.size() >= 2 && (unsigned char)raw[0] == 0xC4 && size_t((unsigned char)raw[1]) + 2 == raw.size()) {
-    payload = raw.substr(2);
-    return true;
-  }
-  return false;
-}
-bool asExt(const std::string& raw, int8_t& type, std::string& payload) {
-  if (raw.empty())
-    return false;
-  unsigned c = (unsigned char)raw[0];
-  if (c >= 0xD4 && c <= 0xD8) {
-    size_t n = size_t(1) << (c - 0xD4);
-    if (raw.size() != n + 2)
-      return false;
-    type = int8_t(raw[1]);
-    payload = raw.substr(2);
-    return true;
-  }
-  if (c == 0xC7 && raw.size() >= 3) {
-    size_t n = (unsigned char)raw[1];
-    if (n == 1 || n == 2 || n == 4 || n == 8 || n == 16)
-      return false;  // the API would have chosen a fixext
-    if (raw.size() != n + 3)
-      return false;
-    type = int8_t(raw[2]);
-    payload = raw.substr(3);
-    return true;
-  }
-  return false;
-}
-
 }  // namespace
 
 // dst.set(scalar) through a type chosen from the value and a hash; returns set()'s result
